@@ -14,6 +14,7 @@ class AmrReader(Reader):
 
     def initialize(self, meta, units, select):
         self.initialized = False
+        self.cpu_list = None
         if select is False:
             return
 
